@@ -42,7 +42,7 @@ CLANG_FLAGS = ["-std=c++2b", "-fopenmp", "-fsyntax-only", "-DFMT_HEADER_ONLY=1",
 # build configurations that change the code inside a region (preprocessor conditionals inside the function)
 CONFIGS = [("", []), ("fib", ["-DTAPKEE_USE_FIBONACCI_HEAP"])]
 KNOWN_CONFIG_MACROS = {"TAPKEE_USE_PRIORITY_QUEUE", "TAPKEE_USE_FIBONACCI_HEAP"}
-TRANSLATOR_VERSION = "9"
+TRANSLATOR_VERSION = "10"
 
 
 class Unsupported(Exception):
@@ -104,6 +104,40 @@ def scan_pragmas(repo):
                         k += 1
                     found.append({"file": os.path.relpath(p, repo), "line": ln, "text": " ".join(full.split()),
                                   "func": enclosing_function(clean, ln)})
+    return found
+
+
+def scan_pragmas_preprocessed(repo, cache_dir):
+    """OpenMP directives as the COMPILER sees them: `clang++ -E -fopenmp` turns `_Pragma("omp …")` -- written directly
+    or through a macro -- into `#pragma omp …` lines; line markers give file and line.  Default configuration."""
+    out = os.path.join(cache_dir, "preprocessed.ii")
+    if not (os.path.exists(out) and os.path.getsize(out) > 0):
+        tu = write_tu(repo, cache_dir)
+        tmp = out + ".tmp%d" % os.getpid()
+        with open(tmp, "w") as fh:
+            r = subprocess.run([CLANG] + [f for f in CLANG_FLAGS if f != "-fsyntax-only"] +
+                               ["-I" + os.path.join(repo, "include"), "-E", tu], stdout=fh, stderr=subprocess.PIPE, text=True)
+        if r.returncode != 0:
+            os.unlink(tmp)
+            raise Unsupported("clang-14 -E failed: %s" % r.stderr[-600:])
+        os.rename(tmp, out)
+    found = []
+    cur_file, cur_line = None, 0
+    root = os.path.abspath(repo) + os.sep
+    cleaned = {}
+    for raw in open(out, errors="replace"):
+        m = re.match(r'#\s*(\d+)\s+"([^"]*)"', raw)
+        if m:
+            cur_line, cur_file = int(m.group(1)), m.group(2)
+            continue
+        pm = re.match(r"\s*#\s*pragma\s+omp\b(.*)", raw)
+        if pm and cur_file and os.path.abspath(cur_file).startswith(root):
+            rel = os.path.relpath(os.path.abspath(cur_file), repo)
+            if rel.startswith(("include" + os.sep, "src" + os.sep)):
+                if rel not in cleaned:
+                    cleaned[rel] = strip_comments_keep_layout(open(os.path.join(repo, rel), errors="replace").read())
+                found.append({"file": rel, "line": cur_line, "text": " ".join(pm.group(1).split()), "clean": cleaned[rel]})
+        cur_line += 1
     return found
 
 
@@ -458,6 +492,13 @@ class Walker:
         f, l = self.src.file(n), self.src.line(n)
         rel = os.path.relpath(f, self.repo) if f else None
         p = self.pragma_at.get((rel, l))
+        if p is None:
+            # `_Pragma` forms: the position the preprocessor reports may differ by a line from the AST's expansion point
+            for d in (-1, 1, -2, 2):
+                if (rel, l + d) in self.pragma_at:
+                    p = self.pragma_at[(rel, l + d)]
+                    l = l + d
+                    break
         if p is None:
             self.fail(n, "OpenMP directive in the AST has no matching pragma line in the token scan (%s:%s)" % (rel, l))
         self.used_pragmas.append((rel, l))
@@ -1403,6 +1444,22 @@ def find_nodes(n, kinds, out):
 
 def analyse(repo, cache_dir, log=lambda *a: None):
     pragmas = scan_pragmas(repo)
+    # the compiler's own view: adds directives written as `_Pragma("omp …")` or hidden in macros
+    for q in scan_pragmas_preprocessed(repo, cache_dir):
+        near = [p for p in pragmas if p["file"] == q["file"] and abs(p["line"] - q["line"]) <= 2
+                and p["text"].split()[:1] == q["text"].split()[:1]]
+        if near:
+            continue
+        # locate the `_Pragma` / macro use in the source: the marker arithmetic of -E may be off by a line
+        lines = q["clean"].split("\n")
+        line = q["line"]
+        for d in (0, -1, 1, -2, 2):
+            if 0 < line + d <= len(lines) and re.search(r"_Pragma|\b[A-Z][A-Z0-9_]{2,}\b", lines[line + d - 1]):
+                line = line + d
+                break
+        pragmas.append({"file": q["file"], "line": line, "text": q["text"], "func": enclosing_function(q["clean"], line),
+                        "via": "_Pragma/macro"})
+    pragmas.sort(key=lambda p: (p["file"], p["line"]))
     if not pragmas:
         raise Unsupported("no OpenMP pragma found under %s" % repo)
     pragma_at = {(p["file"], p["line"]): p for p in pragmas}
@@ -1411,12 +1468,10 @@ def analyse(repo, cache_dir, log=lambda *a: None):
         funcs.setdefault(p["func"]["name"], set()).update(p["func"]["macros"])
     jobs = []
     for fn, macros in sorted(funcs.items()):
-        unknown = macros - KNOWN_CONFIG_MACROS
-        if unknown:
-            raise Unsupported("function %s has preprocessor conditionals on unknown macros %s around an OpenMP region"
-                              % (fn, sorted(unknown)))
+        # conditionals on other macros: only the default configuration of that code is analysed (a pragma the default
+        # configuration does not compile is an error below)
         for cfg_name, cfg_flags in CONFIGS:
-            if cfg_name and not macros:
+            if cfg_name and not (macros & KNOWN_CONFIG_MACROS):
                 continue
             jobs.append((fn, cfg_name, cfg_flags))
     with concurrent.futures.ThreadPoolExecutor(max_workers=min(12, len(jobs))) as ex:
@@ -1466,11 +1521,13 @@ def analyse(repo, cache_dir, log=lambda *a: None):
             regions.extend(finish_regions(w, name))
     # every pragma of the token scan must have been accounted for in the default configuration ...
     for p in pragmas:
-        if not used.get(("", p["file"], p["line"])):
+        if not used.get(("", p["file"], p["line"])) and not any(used.get(("", p["file"], p["line"] + d)) for d in (-2, -1, 1, 2)):
             raise Unsupported("`#pragma omp %s` at %s:%d was not reached by the AST walk (orphaned directive, or inside "
                               "code the default configuration does not compile)" % (p["text"], p["file"], p["line"]))
     # ... and every directive of the AST in a region
     for (cfg, f, l), ok in used.items():
+        if not ok and any(used.get((cfg, f, l + d)) for d in (-2, -1, 1, 2)):
+            continue        # `_Pragma` form: AST expansion point and preprocessor line differ by a line
         if not ok:
             raise Unsupported("OpenMP directive at %s:%s [%s] lies outside every analysed parallel region" % (f, l, cfg or "default"))
     # a second configuration that reads exactly like the default one adds nothing
